@@ -89,6 +89,10 @@ theorem execSimple_app (s : State) (fields : List String)
     | unalias => exact execUnalias_app _ _ _
     | set => exact execSet_app _ _ _
     | cat => exact execCat_app _ _ _ h
+    | closein =>
+      cases hsh : s.shared with
+      | false => simp [execUtil, execClose, State.app, State.stdin, State.setStdin, hsh]
+      | true => simp [execUtil, execClose, State.setStdin, hsh] at h
     | echo => rfl
     | unknown => rfl
 
@@ -155,6 +159,12 @@ theorem execSimple_grows (s : State) (fields : List String)
       simp only [execUtil, execSet]
       split <;> first | exact setOption_grows _ _ _ | exact grows_of_eq rfl rfl rfl
     | cat => exact execCat_grows _ _
+    | closein =>
+      refine ⟨⟨[], ?_⟩, ?_, ⟨[], ?_⟩, ?_⟩
+      · cases hsh : s.shared <;> simp [execUtil, execClose, State.setStdin, hsh]
+      · intro h; cases hsh : s.shared <;> simp [execUtil, execClose, State.setStdin, hsh, h]
+      · cases hsh : s.shared <;> simp [execUtil, execClose, State.setStdin, hsh]
+      · cases hsh : s.shared <;> simp [execUtil, execClose, State.setStdin, hsh]
     | unknown => exact grows_of_eq rfl rfl rfl
 
 /-! ### `step`, `runK` -/
